@@ -190,6 +190,42 @@ def _worker(args):
         return ("harness-error", f"{type(exc).__name__}: {exc}\n{traceback.format_exc()}")
 
 
+def run_shards(prop, tier, seed, nshards, collect, budget_s):
+    """one OS process per shard (a crash of the code under test, e.g. inside z3, cannot hang the run)"""
+    import subprocess
+    import tempfile
+
+    tmp = tempfile.mkdtemp(prefix="vf_shards_")
+    procs = []
+    try:
+        for i in range(nshards):
+            out = os.path.join(tmp, f"shard{i}.json")
+            cmd = [sys.executable, "-m", "vf.shard", prop, tier, str(seed), str(i), str(nshards), "1" if collect else "0", str(budget_s), out]
+            procs.append((i, out, subprocess.Popen(cmd, cwd=ROOT, stdout=subprocess.DEVNULL, stderr=subprocess.DEVNULL)))
+        deadline = time.time() + budget_s + 240
+        results, crashed = [], []
+        for i, out, p in procs:
+            try:
+                rc = p.wait(timeout=max(1.0, deadline - time.time()))
+            except subprocess.TimeoutExpired:
+                p.kill()
+                p.wait()
+                rc = "timeout"
+            if os.path.exists(out):
+                with open(out) as fh:
+                    status, res = json.load(fh)
+                results.append((status, res))
+            else:
+                crashed.append((i, rc))
+        for i, rc in crashed:
+            results.append(("crashed", {"shard": i, "rc": rc}))
+        return results, crashed
+    finally:
+        import shutil
+
+        shutil.rmtree(tmp, ignore_errors=True)
+
+
 def write_replay(prop, record):
     os.makedirs(os.path.join(ROOT, "replays"), exist_ok=True)
     path = os.path.join("replays", f"{prop}-{digest(record)}.json")
@@ -250,10 +286,7 @@ def main_check(prop, tier, seed, collect=False):
 
     # 3. generated search, sharded
     nshards = NPROC
-    jobs = [(prop, tier, seed, i, nshards, collect, budget_s) for i in range(nshards)]
-    ctxm = multiprocessing.get_context("spawn")
-    with ctxm.Pool(min(NPROC, nshards)) as pool:
-        results = pool.map(_worker, jobs, chunksize=1)
+    results, crashed = run_shards(prop, tier, seed, nshards, collect, budget_s)
 
     counters = collections.Counter()
     evaluations = 0
@@ -261,7 +294,14 @@ def main_check(prop, tier, seed, collect=False):
     samples = []
     violations = {}
     knownc = collections.Counter()
+    n_crashed = 0
     for status, res in results:
+        if status == "crashed":
+            # the shard process died (signal / hard timeout) without reporting: what it explored is
+            # lost; inconclusive for that shard, counted in the evidence
+            n_crashed += 1
+            counters[f"shard_process_died_rc={res['rc']}"] += 1
+            continue
         if status != "ok":
             print("HARNESS-ERROR " + res)
             return 2
@@ -282,6 +322,9 @@ def main_check(prop, tier, seed, collect=False):
         print(f"  bucket {b}: {canon(rec.get('observed', ''))[:300]}")
         exit_code = 1
 
+    if n_crashed > nshards // 2:
+        print(f"HARNESS-ERROR {n_crashed} of {nshards} shard processes died without a result")
+        return 2
     mod = load_prop(prop)
     evidence = {
         "property_id": prop,
